@@ -154,7 +154,8 @@ func callC10(c c10Case) string {
 	case "TimeCounterFunc":
 		return fmt.Sprint(otp.TimeCounterFunc(t, uint(c.Period)))
 	case "OCRAInput.Validate":
-		return fmt.Sprint(otp.OCRAInput{Counter: c.bs(0), Challenge: c.bs(1), Password: c.bs(2), SessionInfo: c.bs(3), Timestamp: c.bs(4)}.Validate(toLib(c.Cfg)))
+		in := otp.OCRAInput{Counter: c.bs(0), Challenge: c.bs(1), Password: c.bs(2), SessionInfo: c.bs(3), Timestamp: c.bs(4)} // a variable: the method may have a pointer receiver
+		return fmt.Sprint(in.Validate(toLib(c.Cfg)))
 	case "HexInputToOCRA":
 		_, err := otp.HexInputToOCRA(s(0), s(1), s(2), s(3), s(4))
 		return fmt.Sprint(err)
